@@ -20,8 +20,8 @@ RULE = ('adapters {unwrap_kiwi_future, plum_to_kiwi_future (+unwrap), create_tas
         '{value, falsy value, exception, cancellation} at the innermost level reached x every order of completing the levels (inner before the '
         'outer resolves to it, and after) x completing thread {loop thread, other thread}; CancellableAction x {run, run twice, cancel then run, '
         'raising action, run with args}; exhaustive for depth <=3 same-thread, depth 4 and thread mode sampled; non-trivial when depth >= 2')
-ASSUMPTIONS = ['a cancelled coroutine given to create_task is outside the statement ("result or exception"); a future handed back by a _schedule_rpc callback '
-               'that ends cancelled must make the reply end cancelled (the mirror rule of the statement)',
+ASSUMPTIONS = ['a coroutine given to create_task that ends by cancellation, and a future handed back by a _schedule_rpc callback that ends cancelled, must make '
+               'the returned future end cancelled (the mirror rule of the statement: through convert_to_comm the reply is the mirror of that future)',
                'an exception raised by a _schedule_rpc callback may arrive wrapped, as long as it chains to the original',
                'thread-mode cases that hit their watchdog are inconclusive, never violations']
 REQUIRED = ['adapter/comm_thread', 'injected_delays', 'adapter/unwrap', 'adapter/plum2kiwi', 'adapter/create_task', 'adapter/schedule_rpc', 'outcome/value', 'outcome/exception', 'outcome/cancel',
@@ -56,7 +56,7 @@ def gen_cases(tier, seed):
         order = list(range(depth))
         rng.shuffle(order)
         cases.append({'adapter': rng.choice(['unwrap', 'plum2kiwi']), 'depth': depth, 'order': order, 'outcome': rng.choice(OUTCOMES), 'thread': True})
-    for oc in OUTCOMES[:4]:
+    for oc in OUTCOMES:
         for yields in (0, 1, 3):
             cases.append({'adapter': 'create_task', 'depth': 1, 'order': [0], 'outcome': oc, 'thread': False, 'yields': yields})
             cases.append({'adapter': 'create_task', 'depth': 1, 'order': [0], 'outcome': oc, 'thread': True, 'yields': yields})
@@ -233,6 +233,11 @@ def run_case(case):
                     await asyncio.sleep(0)
                 if oc[0] == 'exc':
                     raise AdapterError(oc[1])
+                if oc[0] == 'cancel':
+                    # the coroutine ends by cancellation (it awaits something that was cancelled)
+                    inner = loop.create_future()
+                    inner.cancel()
+                    await inner
                 return oc[1]
 
             factory = coro
